@@ -186,14 +186,15 @@ prop("C05", "exploration",
      "invoice payer locked; late-locked after finalize; self-send) x 0-3 other pending transactions created first x cancel by log id or slate id x 1-3 change "
      "outputs, plus minimum_confirmations=0 spends of a still-unconfirmed output; every third case also puts pending sends and receipts into the wallet's other account so that their per-account log ids cover the id of the transaction under test. The view P0 (per output: path, status, value, height, lock height; every "
      "log entry of every account; balance figures of every account for minconf 0/1/3/10) is taken after a refresh right before the transaction is created; after the cancel the view must equal "
-     "P0 except for the cancelled entry itself. Then cancels of already cancelled / unknown / coinbase / confirmed entries must be refused without change. "
+     "P0 except for the cancelled entry itself. Then cancels of already cancelled / unknown / coinbase / confirmed entries must be refused without change, and so must the "
+     "cancel of a send (with / without change output) that is already mined but which the wallet has not refreshed since. "
      "distinct = (kind, other pending, addressing, change, minconf0); non-trivial = all",
      [{"name": "c05", "cmd": "c05", "shards": {"quick": 14, "thorough": 16}, "crash_is_violation": True}],
      {"quick": 250, "thorough": 1500},
      ["no block is mined and no coin-selecting step runs between creation and cancel (their choices legitimately depend on the reservation)",
       "the output's link to a log entry (tx_log_entry) is not part of the compared state; status, value, heights and balances are",
       "a self-send is cancelled by log id (two entries share the slate id)"],
-     required_hist=["exact-rollback:SentFinalized", "exact-rollback:Received", "exact-rollback:InvoicePayerLocked", "exact-rollback:LateLockedFinalized", "exact-rollback:SelfSend", "refused:confirmed", "refused:coinbase", "refused:already-cancelled", "cross-account:log-id-shared-with-a-pending-entry-of-the-other-account"])
+     required_hist=["exact-rollback:SentFinalized", "exact-rollback:Received", "exact-rollback:InvoicePayerLocked", "exact-rollback:LateLockedFinalized", "exact-rollback:SelfSend", "refused:confirmed", "refused:coinbase", "refused:already-cancelled", "refused:mined-but-not-yet-seen", "cross-account:log-id-shared-with-a-pending-entry-of-the-other-account"])
 
 prop("C02", "exploration",
      "scenarios over send / late-locked send / self-send / invoice with random amount, 1-3 change outputs, ttl, amount-includes-fee, optional payment proof, on "
